@@ -566,6 +566,23 @@ func c06Suite(c *core.Collector, seed uint64, batch int, conns, nreq int, wraps 
 		for _, h := range r.hashes {
 			c.NonTrivial(h)
 		}
+		if cid%5 == 2 && !wrap && len(r.viol) == 0 && !r.incon {
+			// the terminal comes back: a new connection with the SAME phone number after the first one has gone — it is a new
+			// conversation (platform serials from 0 again, nothing remembered from the old connection)
+			r2 := c06Conversation(srv.Addr, cid, seed+7777, n/2, (mode+1)%3, false, !frag)
+			c.Evals(int64(r2.requests))
+			c.Count("replies_checked", int64(r2.replies))
+			c.Count("reconnections_under_the_same_phone", 1)
+			if r2.incon {
+				c.Inconclusive()
+			}
+			for _, v := range r2.viol {
+				c.Violate(v[0], v[1]+" [second connection of this phone]", r2.witness)
+			}
+			for _, h := range r2.hashes {
+				c.NonTrivial(h)
+			}
+		}
 		if cid%4 == 1 && !wrap && len(r.viol) == 0 {
 			c.Sample(map[string]any{"conn": cid, "mode": []string{"one-frame-per-write", "pipelined-segments", "mixed"}[mode], "requests": r.requests, "replies_checked": r.replies, "sub_packaged_requests": frag})
 		}
